@@ -92,6 +92,15 @@ class Program:
                     if isinstance(m, ast.FunctionDef):
                         m._file = path
                         ci.methods.setdefault(m.name, []).append(m)
+                        # instance attributes declared where they are first assigned:  self.x: T = ...   (Optional[int/bool/Decimal] is not representable: left undeclared)
+                        for x in ast.walk(m):
+                            if (isinstance(x, ast.AnnAssign) and isinstance(x.target, ast.Attribute) and isinstance(x.target.value, ast.Name) and x.target.value.id == 'self'
+                                    and x.target.attr not in ci.fields):
+                                try: fty_ = parse_ann(x.annotation, dict(s.tv, Self=n.name))
+                                except Exception: fty_ = None
+                                opt_ = isinstance(x.annotation, ast.Subscript) and getattr(x.annotation.value, 'id', getattr(x.annotation.value, 'attr', None)) == 'Optional'
+                                if fty_ is not None and not (opt_ and fty_ in (INT, BOOL, DEC)):
+                                    ci.fields[x.target.attr] = fty_; ci.field_defaults[x.target.attr] = None
                         if m.name == '__init__':
                             anns = {a.arg: a.annotation for a in m.args.args + m.args.kwonlyargs}
                             for x in ast.walk(m):
